@@ -24,11 +24,10 @@
    * Token-level tags (`tokens[-1]["tags"] = tags`) are not represented in Story/Compiled.v's `token`
      (the engine ignores them; harness/story2coq.py drops them): parse_content_line computes the tags
      only to remove them from the text.
-   * Python's recursion limit: parse_content_line and parse_inline_conditional call each other once
-     per nesting level of `{c ? .. | ..}`.  `parse_content_line_lim rl` makes the number of available
-     levels explicit (PInternal (IRecursion _) when exhausted); `parse_content_line` is the ideal
-     function with an unbounded stack (rl = fuel = length of the line + 1, proved sufficient in
-     Proofs/ParseProofs.v). *)
+   * Nesting of inline conditionals: parse_content_line and parse_inline_conditional call each other
+     once per nesting level of `{c ? .. | ..}`, carrying `_depth`; beyond MAX_INLINE_DEPTH = 50 levels
+     parse_inline_conditional raises SyntaxError (fix f3adbc1, was F11e: RecursionError at about 495
+     levels).  The model's fuel is that bound + 2 (proved sufficient in Proofs/ParseProofs.v). *)
 From Coq Require Import String Ascii List Bool Arith ZArith.
 From Bardic Require Import PyStr Value Compiled Lex ParseBase.
 Import ListNotations.
@@ -329,8 +328,11 @@ Definition split_expressions_with_depth (text : string) : pres (list string) :=
 (* parse_inline_conditional, parse_content_line                                                 *)
 (* ------------------------------------------------------------------------------------------- *)
 
-(* parse_inline_conditional with the recursive call to parse_content_line as a parameter *)
-Definition parse_inline_conditional_with (rec : string -> pres (list token)) (expr : string)
+Definition max_inline_depth : nat := 50.
+
+(* parse_inline_conditional(expr, _depth) with the recursive call parse_content_line(.., _depth + 1)
+   as a parameter *)
+Definition parse_inline_conditional_with (depth : nat) (rec : string -> pres (list token)) (expr : string)
   : pres (option token) :=
   if negb (str_contains expr "?") then POk None else
   match find_top "?" expr 0 0 with
@@ -343,6 +345,7 @@ Definition parse_inline_conditional_with (rec : string -> pres (list token)) (ex
       | Some p =>
           let truthy_text := strip (take p rest) in
           let falsy_text := strip (drop (S p) rest) in
+          if max_inline_depth <=? depth then dsyn "content:nesting-depth" 0 else
           let* tks := (if nonempty truthy_text then rec truthy_text else POk []) in
           let* fks := (if nonempty falsy_text then rec falsy_text else POk []) in
           POk (Some (TInlineCond condition tks fks))
@@ -367,30 +370,27 @@ Fixpoint content_parts (pic : string -> pres (option token)) (parts : list strin
 (* parse_content_line(line, line_num, lines, ...): the ValueError of the splitter becomes a
    SyntaxError (through format_error with index line_num - 1 when the context is given, bare
    otherwise; both are DSyntax "content:braces", the caller re-tags the index). *)
-Fixpoint parse_content_line_lim (rl fuel : nat) (line : string) : pres (list token) :=
+Fixpoint parse_content_line_d (fuel depth : nat) (line : string) : pres (list token) :=
   match fuel with
   | 0 => POutOfFuel
   | S f =>
-      match rl with
-      | 0 => PInternal (IRecursion "parse_content_line")
-      | S rl' =>
-          let (line1, _) := strip_inline_comment line in
-          let (line_without_tags, tags) := parse_tags line1 in
-          match split_expressions_with_depth line_without_tags with
-          | POk parts =>
-              content_parts (parse_inline_conditional_with (parse_content_line_lim rl' f)) parts
-          | PDiag _ => PDiag (DSyntax "content:braces" 0)
-          | PInternal k => PInternal k
-          | POutOfFuel => POutOfFuel
-          end
+      let (line1, _) := strip_inline_comment line in
+      let (line_without_tags, tags) := parse_tags line1 in
+      match split_expressions_with_depth line_without_tags with
+      | POk parts =>
+          content_parts (parse_inline_conditional_with depth (parse_content_line_d f (S depth))) parts
+      | PDiag _ => PDiag (DSyntax "content:braces" 0)
+      | PInternal k => PInternal k
+      | POutOfFuel => POutOfFuel
       end
   end.
 
+(* _depth = 0; levels 0 .. 50 can be entered *)
 Definition parse_content_line (line : string) : pres (list token) :=
-  parse_content_line_lim (S (String.length line)) (S (String.length line)) line.
+  parse_content_line_d (S (S max_inline_depth)) 0 line.
 
 Definition parse_inline_conditional (expr : string) : pres (option token) :=
-  parse_inline_conditional_with parse_content_line expr.
+  parse_inline_conditional_with 0 (parse_content_line_d (S max_inline_depth) 1) expr.
 
 (* ------------------------------------------------------------------------------------------- *)
 (* parse_choice_line                                                                            *)
@@ -736,7 +736,9 @@ Definition parse_input_attrs (ctx : bool) (line0 : string) : pres (option (list 
   if negb (nonempty after_input) then
     (if ctx then dsyn "input:missing-parameters" 0 else POk None) else
   let spec0 : list (string * string) := [("type", "input")] in
-  let spec1 := fold_left (fun d kv => set_key (fst kv) (snd kv) d) (find_attrs after_input "" 0) spec0 in
+  (* `if key == "type": continue` (fix 74386b3) *)
+  let spec1 := fold_left (fun d kv => if String.eqb (fst kv) "type" then d else set_key (fst kv) (snd kv) d)
+                         (find_attrs after_input "" 0) spec0 in
   match lookup "name" spec1 with
   | None => if ctx then dsyn "input:missing-name" 0 else POk None
   | Some name =>
